@@ -180,7 +180,7 @@ def run_with(ctx, judge_fn, rule_tail):
             "reversed order (thorough: rotations too). Option sets: 'near' = every set of the 13 simplification switches and "
             "eliminable_variable_expression within Hamming distance 1 of the default and of all-on, on (A) in source order, on (B) for "
             "pairs of 6 core forms, (thorough) on (C) in source order; 'wide' = distance 2, thorough only, on (B) core pairs in source / "
-            "reversed order; 'core' = 9 named sets (default, each eliminating pass alone, all-on and its neighbours) on everything else. " % len(S.FORMS) + rule_tail,
+            "reversed order; 'core' = 10 named sets (default, each eliminating pass alone, all-on and its neighbours) on everything else. " % len(S.FORMS) + rule_tail,
         }
     )
 
